@@ -90,6 +90,11 @@ pub trait Campaign: Sync {
         "exploration"
     }
     fn runs(&self, tier: Tier) -> u64;
+    /// runs come in groups of this many consecutive indices that share one base seed (the rng passed to
+    /// `generate` is seeded from index / group); `index % group` selects the variant (fault placement…)
+    fn group(&self, _tier: Tier) -> u64 {
+        1
+    }
     fn generate(&self, rng: &mut Rng, tier: Tier, index: u64) -> Self::Scenario;
     fn execute(&self, sc: &Self::Scenario) -> Outcome;
     /// smaller variants of a scenario (tried in order; first that still violates the same invariant wins)
@@ -216,7 +221,7 @@ pub fn worker<C: Campaign>(c: &C, tier: Tier, master: u64, shard: u64, shards: u
         let sc = if idx < 0 {
             seeded[(idx + nseeded as i64) as usize].clone()
         } else {
-            let mut rng = Rng::new(run_seed(master, c.id(), idx as u64));
+            let mut rng = Rng::new(run_seed(master, c.id(), idx as u64 / c.group(tier).max(1)));
             c.generate(&mut rng, tier, idx as u64)
         };
         let t_run = Instant::now();
@@ -250,8 +255,8 @@ pub fn worker<C: Campaign>(c: &C, tier: Tier, master: u64, shard: u64, shards: u
             (Some(v), _) => {
                 let done = minimised_per_invariant.entry(v.invariant.clone()).or_insert(0);
                 *done += 1;
-                if hashes_only || *done > 2 {
-                    // only the first two violations of an invariant per shard are minimised
+                if hashes_only || *done > 2 || idx < 0 {
+                    // only the first two violations of an invariant per shard are minimised; explicit seeds are minimal already
                     let _ = writeln!(out, "V {}", json!({"run": idx, "invariant": v.invariant, "detail": v.detail, "tried": 0, "trace_hash": o.trace_hash, "haystack": c.haystack(&sc), "scenario": sc_json}));
                 } else {
                     let (min, tried) = minimise(c, &sc, &v.invariant, 2000, Duration::from_secs(20));
@@ -531,7 +536,11 @@ pub fn check<C: Campaign>(c: &C, a: &CheckArgs) -> i32 {
             // an abort (allocation failure, stack overflow) or a hang while stepping is a C07 violation
             println!("  shard {} {} while executing run {}", k, why, run);
             let path = format!("{}/replays/C07-{}-abort-{}.json", a.verif_root, a.seed, run);
-            let _ = std::fs::write(&path, json!({"property": "C07", "invariant": format!("C07.abort.{}", why), "seed": a.seed, "run_index": run, "scenario": Value::Null}).to_string());
+            // the shard is gone: regenerate the scenario of that run index in a throw-away child (it may hang too)
+            let scenario = regenerate_in_child(prop, a.tier, a.seed, *run).unwrap_or(Value::Null);
+            let rf = json!({"property": "C07", "invariant": format!("C07.abort.{}", why), "detail": format!("shard {} while stepping", why), "seed": a.seed, "run_index": run,
+                "trace_hash": 0, "minimised_in_runs": 0, "scenario": scenario});
+            let _ = std::fs::write(&path, serde_json::to_string_pretty(&rf).unwrap());
             println!("VIOLATION property=C07 replay={}", path);
             exit = 1;
         } else {
@@ -604,6 +613,38 @@ pub fn check<C: Campaign>(c: &C, a: &CheckArgs) -> i32 {
         return 2;
     }
     0
+}
+
+fn regenerate_in_child(prop: &str, tier: Tier, seed: u64, run: i64) -> Option<Value> {
+    if run < 0 {
+        return None;
+    }
+    let exe = std::env::current_exe().ok()?;
+    let mut child = Command::new(exe)
+        .args(["show", prop, &run.to_string(), "--tier", tier.name(), "--seed", &seed.to_string()])
+        .env("RUST_BACKTRACE", "0")
+        .stdout(Stdio::piped())
+        .stderr(Stdio::null())
+        .spawn()
+        .ok()?;
+    let t0 = Instant::now();
+    loop {
+        match child.try_wait() {
+            Ok(Some(_)) => break,
+            Ok(None) => {
+                if t0.elapsed() > Duration::from_secs(20) {
+                    let _ = child.kill();
+                    return None;
+                }
+                std::thread::sleep(Duration::from_millis(50));
+            }
+            Err(_) => return None,
+        }
+    }
+    let mut s = String::new();
+    use std::io::Read;
+    child.stdout.take()?.read_to_string(&mut s).ok()?;
+    serde_json::from_str(&s).ok()
 }
 
 pub fn replay<C: Campaign>(c: &C, path: &str) -> i32 {
